@@ -18,11 +18,17 @@ IsEvent(name) == l <= Len(Trace) /\ ev.e = name /\ l' = l + 1
 TInit == SInit /\ l = 1
 
 EvReset == IsEvent("Reset") /\ sc' = (FileScope :> NewScope(-1)) /\ UNCHANGED <<nsc, nid>>
-EvOpen  == IsEvent("open") /\ ev.p \in Live /\ ev.s \notin Live /\ OpenAs(ev.p, ev.s) /\ UNCHANGED <<nsc, nid>>
-EvClose == IsEvent("close") /\ ev.s \in Leaves /\ CloseAs(ev.s) /\ UNCHANGED <<nsc, nid>>
-EvPut   == IsEvent("put") /\ ev.s \in Live /\ ev.ns \in NameSpaces /\ ev.id # NULL
+(* A scope may be deleted while scopes below it still exist (that only leaks or  *)
+(* strands them); what must not happen is that a stranded scope is USED: every   *)
+(* scope an event names must still reach the file scope through live parents.    *)
+RECURSIVE ChainOK(_)
+ChainOK(s) == s \in Live /\ (sc[s].parent = -1 \/ ChainOK(sc[s].parent))
+
+EvOpen  == IsEvent("open") /\ ChainOK(ev.p) /\ ev.s \notin Live /\ OpenAs(ev.p, ev.s) /\ UNCHANGED <<nsc, nid>>
+EvClose == IsEvent("close") /\ ev.s \in Live \ {FileScope} /\ CloseAs(ev.s) /\ UNCHANGED <<nsc, nid>>
+EvPut   == IsEvent("put") /\ ChainOK(ev.s) /\ ev.ns \in NameSpaces /\ ev.id # NULL
            /\ PutAs(ev.s, ev.ns, ev.name, ev.id) /\ UNCHANGED <<nsc, nid>>
-EvGet   == IsEvent("get") /\ ev.s \in Live /\ ev.ns \in NameSpaces
+EvGet   == IsEvent("get") /\ ChainOK(ev.s) /\ ev.ns \in NameSpaces
            /\ ev.id = DeclGet(ev.s, ev.ns, ev.name, ev.rec = 1)
            /\ ev.id = ImplGet(ev.s, ev.ns, ev.name, ev.rec = 1)
            /\ UNCHANGED <<sc, nsc, nid>>
